@@ -107,6 +107,9 @@ impl KMonitor for C03 {
                 if usable.len() == 1 {
                     out.stats.inc("c03.single_usable_link");
                 }
+                if usable.iter().all(|i| s.pre[*i].get_score() == 0) {
+                    out.stats.inc("c03.all_usable_links_score_zero");
+                }
             }
             match s.result {
                 None if !usable.is_empty() => {
